@@ -72,7 +72,7 @@ var jsGlobals = data.Map{"G_MAP": data.Map{"k2": data.Int(2), "k1": data.String(
 // the generator writes nothing that is shared and produces identical bytes.
 func H_jsPure(t int, es6 bool) {
 	reg := jsMust(jsGlobals, jsFiles[t]...)
-	before := verifDeepDigest(reg) + verifGlobalsDigest()
+	before, beforeG := verifDeepDigest(reg), verifGlobalsDigest()
 	verifFreeze("compiled registry", reg)
 	verifFreezeGlobals()
 	for _, f := range reg.SoyFiles {
@@ -82,7 +82,10 @@ func H_jsPure(t int, es6 bool) {
 		verifAssert(o1 == o2, "C13: two generations of the same file differ")
 	}
 	verifUnfreeze()
-	verifAssert(before == verifDeepDigest(reg)+verifGlobalsDigest(), "native: the registry changed during js generation")
+	verifAssert(before == verifDeepDigest(reg), "native: the registry changed during js generation")
+	if verifConfirmingFrozen() {
+		verifAssert(beforeG == verifGlobalsDigest(), "native: a package-level variable changed during js generation")
+	}
 }
 
 // files the JavaScript backend rejects part-way through (after some output was produced)
